@@ -211,7 +211,8 @@ Definition desynced_at (st : state) (i : N) : bool :=
       4 partial-commit              5 refused-command-changed-state  6 accepted-out-of-order
       7 accepted-from-other-context 8 failed-complete-left-unrollbackable
       9 staged-change-orphaned-by-context-switch
-     10 staged-change-stored-by-vid-statement *)
+     10 staged-change-stored-by-vid-statement
+     11 flags-changed-without-credential-command *)
 Definition opt_list (x : option N) : list N := match x with Some i => [i] | None => [] end.
 
 Definition check_step (pre : state) (base : option kvs) (taint : list N) (moved : option N)
@@ -340,7 +341,20 @@ Definition check_step (pre : state) (base : option kvs) (taint : list N) (moved 
       end
     | _ => []
     end in
-  c1 ++ c2 ++ c3 ++ c4 ++ c5 ++ c6 ++ c7 ++ c8 ++ c9 ++ c10.
+  let c11 :=
+    (* the record of accepted credential commands changes only by an accepted credential command
+       (in particular: re-arming keeps it); an operation that is none leaves the flags alone, ends
+       the fail-safe period, or starts one with no flag *)
+    match cred_of o with
+    | Some _ => []
+    | None =>
+      match s_fs pre, s_fs post with
+      | Armed _ fl, Armed _ fl' => if flags_eqb fl fl' then [] else [11]
+      | Idle, Armed _ fl' => if flags_eqb fl' fl_empty then [] else [11]
+      | _, Idle => []
+      end
+    end in
+  c1 ++ c2 ++ c3 ++ c4 ++ c5 ++ c6 ++ c7 ++ c8 ++ c9 ++ c10 ++ c11.
 
 Definition next_base (pre : state) (base : option kvs) (o : op) (post : state) : option kvs :=
   match s_fs post with
@@ -472,6 +486,48 @@ Definition may_store (st : state) (o : op) : bool :=
     | _, _ => true
     end
   | _ => false
+  end.
+
+(** The three ways an operation can reach the store, by name ([may_store_split] in
+    Proofs/FailsafeTheorems.v: [may_store] is their disjunction):
+    - it is CommissioningComplete (or its cut variant): the commit;
+    - it is an ACL / label / VID write from outside the fail-safe's context - another fabric's
+      administrator, or no fail-safe at all: committed at once, legitimately;
+    - the known class "VID statement": SetVIDVerificationStatement from the fail-safe's own
+      fabric while no AddNOC / UpdateNOC of the context is pending stores the whole fabric. *)
+Definition is_complete (o : op) : bool :=
+  match o with OComplete _ _ | OCompleteCut _ _ => true | _ => false end.
+
+Definition outside_write (st : state) (o : op) : bool :=
+  match o with
+  | OAclW s _ _ | OLabel s _ _ | OVid s _ _ =>
+    match sess_ctx st s, s_fs st with
+    | Some (g, _), Armed f _ => negb (f =? g)
+    | _, _ => true
+    end
+  | _ => false
+  end.
+
+Definition vid_leak (st : state) (o : op) : bool :=
+  match o with
+  | OVid s _ _ =>
+    match sess_ctx st s, s_fs st with
+    | Some (g, _), Armed f fl => (f =? g) && negb (fl_add_noc fl || fl_upd_noc fl)
+    | _, _ => false
+    end
+  | _ => false
+  end.
+
+(** A run of the commissioning in progress, outside every known class and without its commit:
+    no failing immediate store, no context switch that orphans staged changes, no VID-statement
+    leak, no CommissioningComplete, no write from outside the fail-safe's context. *)
+Fixpoint in_scope (st : state) (ops : list op) : Prop :=
+  match ops with
+  | [] => True
+  | o :: r =>
+    good_op o /\ orphaning st o = false /\ vid_leak st o = false /\
+    is_complete o = false /\ outside_write st o = false /\
+    in_scope (fst (step st o)) r
   end.
 
 (** The ways a commissioning ends without being completed. *)
